@@ -278,6 +278,10 @@ func runCheck(o checkOpts) *checkResult {
 			ob.Property = o.prop
 		}
 		obls = append(obls, r.Ctx.obls...)
+		for _, ob := range r.extra {
+			ob.Property = o.prop
+		}
+		obls = append(obls, r.extra...)
 	}
 	extra := propertyObligations(w, o, mine)
 	obls = append(obls, extra...)
@@ -480,7 +484,7 @@ func cmdDump(args []string) int {
 	}
 	need := map[string]bool{}
 	for _, ct := range all {
-		if strings.Contains(ct.FullName(), *fn) {
+		if strings.Contains(ct.FullName(), *fn) || (*prop != "" && hasProp(ct, *prop)) {
 			need[ct.PkgPath] = true
 		}
 	}
@@ -509,7 +513,7 @@ func cmdDump(args []string) int {
 			fmt.Println("ERR", r.Err)
 			continue
 		}
-		for _, o := range r.Ctx.obls {
+		for _, o := range append(r.Ctx.obls, r.extra...) {
 			if strings.Contains(o.Name, *obl) {
 				fmt.Println(";;;; ", o.Name)
 				fmt.Println(o.Query(true))
